@@ -37,6 +37,7 @@ Rec == Trace[l - 1]
 InClaim(r) == ~Chained(r.conns)
 Clause(r) ==
   IF r.exc # "none" THEN "exception_raised"
+  ELSE IF Len(r.obs) = 0 THEN "nothing_observed"
   ELSE IF \E k \in 1..Len(r.obs) : r.obs[k] # Expand(r.nums, r.conns) THEN "wrong_expansion"
   ELSE IF Descending(r.nums, r.conns) /\ ~r.nonseq THEN "descending_without_warning"
   ELSE IF ~r.shared THEN "tracts_do_not_share_description"
